@@ -246,12 +246,22 @@ def gen_sched(rng):
             stream.append(rng.choice([(-1, True), (-1, True), (1, True), (1, True), (2, True), (3, False)]))
         else:
             stream.append(rng.choice([(0, True), (0, True), (0, True), (2, True)]))
+    # most scripts get a tail that lets the run END (so that the returned list, and not only the call
+    # sequence, is compared): failures stop the outward loop and let the inward one run down to minsma;
+    # with a truthy maxsma a tail of successes ends as well.  The rest starve the oracle.
+    r = rng.random()
+    pad = []
+    if r < 0.45:
+        pad = [(-1, True)] * 70
+    elif r < 0.7 and maxsma:
+        pad = [(rng.choice([0, 0, 2]), True)] * 70
     if not maxsma:
         # without a (truthy) maxsma the growth stops only on failures: keep the largest reachable sma
         # below ~300 pixels (every scripted outcome still samples the real image at that radius)
         a0 = sma0 if sma0 else 7.0
         while stream and (a0 + len(stream) * step if lin else a0 * (1.0 + step) ** len(stream)) > 300.0:
             stream.pop()
+    stream = stream + pad
     fixes = rng.choice([(False, False, False)] * 6 + [(True, False, False), (False, True, True),
                                                       (True, True, True)])
     use_sma0 = rng.random() < 0.8
@@ -401,7 +411,9 @@ def recovery(p, obs):
     minor axis <= 0.5 per pixel (the image is the profile sampled at pixel centres: steeper
     profiles are not resolved by any interpolation), inside the frame and within 3.5 scale radii.
     Tolerance rule of the property: |fit - truth| <= max(small absolute tolerance, 5 x reported
-    error), absolute tolerances 0.25 pixel (centre), 0.03 (eps), 0.02/eps rad (PA), 3 % (intensity).
+    error), absolute tolerances 0.25 pixel (centre), 0.03 (eps), 0.02/eps rad (PA), 3 % (intensity);
+    nearest-neighbour mode (whole-pixel sampling): 0.5 pixel, 0.05, 3 % + a quarter pixel of minor-axis slope.
+    Also returns the numbers of converged / all isophotes at well-sampled radii.
     Returns (n_checked, gross, worst ratios)."""
     il = obs['isolist']
     f = radial(p['law'], p['scale'])
@@ -409,22 +421,28 @@ def recovery(p, obs):
     worst = dict(cen=0.0, eps=0.0, pa=0.0, intens=0.0)
     edge = min(p['x0'], p['y0'], p['nx'] - 1 - p['x0'], p['ny'] - 1 - p['y0'])
     e0 = max(p['eps'], 0.05)
+    worst['radii'] = 0
     for iso in il:
-        if iso.sma < 5 or iso.stop_code != 0 or iso.sma > 0.8 * edge or iso.sma > 3.5 * p['scale']:
+        if iso.sma < 5 or iso.sma > 0.8 * edge or iso.sma > 3.5 * p['scale']:
             continue
         truth = float(f(iso.sma))
         slope = abs(math.log(float(f(iso.sma * 1.01))) - math.log(truth)) / (0.01 * iso.sma) / (1.0 - p['eps'])
         if iso.sma * (1.0 - p['eps']) < 3.0 or slope > 0.5:
+            continue
+        worst['radii'] += 1
+        if iso.stop_code != 0:
             continue
         n += 1
         dc = math.hypot(iso.x0 - p['x0'], iso.y0 - p['y0'])
         de = abs(iso.eps - p['eps'])
         dp = angdiff(iso.pa, p['pa'])
         di = abs(iso.intens - truth) / truth
-        rc = dc / max(0.25, 5 * math.hypot(iso.x0_err, iso.y0_err))
-        re_ = de / max(0.03, 5 * iso.ellip_err)
+        # nearest-neighbour sampling reads whole pixels: half a pixel of discretisation
+        nn = p['integr'] == 'nearest_neighbor'
+        rc = dc / max(0.5 if nn else 0.25, 5 * math.hypot(iso.x0_err, iso.y0_err))
+        re_ = de / max(0.05 if nn else 0.03, 5 * iso.ellip_err)
         rp = dp / max(0.02 / e0, 5 * iso.pa_err)
-        ri = di / max(0.03, 5 * iso.int_err / abs(iso.intens))
+        ri = di / max(0.03 + (0.25 * slope if nn else 0.0), 5 * iso.int_err / abs(iso.intens))
         worst['cen'] = max(worst['cen'], rc)
         worst['eps'] = max(worst['eps'], re_)
         worst['pa'] = max(worst['pa'], rp)
@@ -625,6 +643,7 @@ def run(ctx):
     # ---- real fits ----------------------------------------------------------------
     n_real = 40 if quick else 300
     all_steps = []
+    conv = [0, 0]
     for j in range(len(PINNED_REAL) + n_real):
         if j < len(PINNED_REAL):
             p = dict(PINNED_REAL[j])
@@ -661,6 +680,10 @@ def run(ctx):
         n, gross, worst = recovery(p, obs)
         ctx.support('recovery_well_sampled', n)
         ctx.stat('real', 'well-sampled-isophotes', n)
+        radii = worst.pop('radii')
+        if p['integr'] != 'nearest_neighbor':
+            conv[0] += n
+            conv[1] += radii
         for k, v in worst.items():
             key = 'worst_ratio_to_tolerance_' + k
             d = ctx.cov['correspondence'].setdefault('recovery', {})
@@ -671,11 +694,39 @@ def run(ctx):
                           f'error) [centre, eps, pa, intensity]: {gross[:2]}', describe_real(p))
         st = obs['steps']
         ctx.stat('real', 'corrector-steps-observed', len(st))
+        # direct oracle on EVERY corrector step: the corrected harmonic is free and the largest free one,
+        # and the corrector changes only its own parameter group
+        for s_ in st:
+            amps = [abs(c) for c, m in zip(s_['coeffs'], s_['fix']) if not m]
+            if s_['fix'][s_['k']] or abs(s_['coeffs'][s_['k']]) < max(amps):
+                ctx.violation('EllipseFitter.fit:corrector-choice', 'a fixed (masked) or non-maximal harmonic was '
+                              f'corrected: index {s_["k"]}, fix {s_["fix"]}, coeffs {s_["coeffs"]}',
+                              {'mode': 'step', 'case': describe_real(p),
+                               'step': {k: s_[k] for k in ('k', 'fix', 'g', 'coeffs', 'harm', 'gc', 'gn')}})
+                break
+            if _frame_broken(s_):
+                ctx.violation('EllipseFitter.fit:corrector-frame', f'corrector {s_["k"]} changed a parameter '
+                              f'outside its group: {_frame_broken(s_)}',
+                              {'mode': 'step', 'case': describe_real(p),
+                               'step': {k: s_[k] for k in ('k', 'fix', 'g', 'coeffs', 'harm', 'gc', 'gn')}})
+                break
+        nonfin = [s_ for s_ in st if not all(math.isfinite(v) for v in s_['g'] + s_['gc'] + s_['gn'] + tuple(s_['coeffs']))]
+        ctx.stat('real', 'steps-with-non-finite-geometry(not compared)', len(nonfin))
+        st = [s_ for s_ in st if s_ not in nonfin]
         pick = st if len(st) <= 30 else [st[i] for i in sorted(ctx.rng.sample(range(len(st)), 30))]
         flips = [s for s in st if s['gc'] != s['gn']]
         ctx.stat('real', 'eps-normalisation-steps', len(flips))
         for s in (pick + [s for s in flips if s not in pick][:10]):
             all_steps.append((p, s))
+    # support: inside the basin of convergence the fitter converges (stop code 0) at the great majority
+    # of well-sampled radii (observed: 95 %); a fitter that does not converge would make the recovery
+    # clause vacuous.  Nearest-neighbour fits are left out (pixel noise: most end with code 2).
+    ctx.stat('real', 'converged-of-well-sampled-radii(non-NN)', f'{conv[0]}/{conv[1]}')
+    ctx.support('convergence_rate', conv[1])
+    if conv[1] >= 40 and conv[0] < 0.6 * conv[1]:
+        ctx.violation('Ellipse.fit_image:convergence-rate',
+                      f'only {conv[0]} of {conv[1]} well-sampled isophotes of noise-free galaxies converged '
+                      '(stop code 0) from initial geometries inside the basin of convergence', {'mode': 'aggregate'})
     for p, s in all_steps:
         terms.append(step_term(s))
         meta.append(('step', p, s))
